@@ -19,6 +19,8 @@ var c06Roles = []string{
 	"qeidentity-doc", "qeidentity-signer", "qeidentity-header-root",
 	"pckcrl", "pckcrl-header-signer", "pckcrl-header-root",
 	"rootcrl",
+	// the usual PCS situation: TCB Info and QE Identity arrive with byte-identical issuer chains (one signer, one root copy)
+	"shared-signer", "shared-header-root",
 }
 
 // governing time-set entries of each role (pool-root is on three validated paths) and the level at which the role matters.
@@ -29,16 +31,18 @@ var c06Gov = map[string][]int{
 	"qeidentity-doc": {world.TQeIdentity}, "qeidentity-signer": {world.TQeIdentity}, "qeidentity-header-root": {world.TQeIdentity},
 	"pckcrl": {world.TPckCrl}, "pckcrl-header-signer": {world.TPckCrl}, "pckcrl-header-root": {world.TPckCrl},
 	"rootcrl": {world.TRootCaCrl},
+	"shared-signer": {world.TTcbInfo, world.TQeIdentity}, "shared-header-root": {world.TTcbInfo, world.TQeIdentity},
 }
 var c06Level = map[string]int{
 	"leaf": world.LBase, "intermediate": world.LBase, "root-in-quote": world.LBase, "pool-root": world.LBase,
 	"tcbinfo-doc": world.LColl, "tcbinfo-signer": world.LColl, "tcbinfo-header-root": world.LColl,
 	"qeidentity-doc": world.LColl, "qeidentity-signer": world.LColl, "qeidentity-header-root": world.LColl,
 	"pckcrl": world.LCrl, "pckcrl-header-signer": world.LCrl, "pckcrl-header-root": world.LCrl, "rootcrl": world.LCrl,
+	"shared-signer": world.LColl, "shared-header-root": world.LColl,
 }
 
 // roles whose notBefore is enforced (certificates on an x509-validated path)
-var c06NotBefore = []string{"leaf", "intermediate", "pool-root", "tcbinfo-signer", "qeidentity-signer"}
+var c06NotBefore = []string{"leaf", "intermediate", "pool-root", "tcbinfo-signer", "qeidentity-signer", "shared-signer"}
 
 var timeNames = []string{"PckCertChain", "TcbInfo", "QeIdentity", "PckCrl", "RootCaCrl"}
 
@@ -64,6 +68,14 @@ func c06Build(k *c06Keys, r *mrand.Rand, win map[string]world.Window) *world.Wor
 	leaf := world.Issue(world.LeafTemplate(get("leaf"), world.SgxExtension(k.p)), inter, k.leaf)
 	tcb := world.Issue(world.TcbSignTemplate(get("tcbinfo-signer")), rootQ, k.tcb)
 	qe := world.Issue(world.TcbSignTemplate(get("qeidentity-signer")), rootQ, k.qe)
+	qeKey := k.qe
+	_, sh1 := win["shared-signer"]
+	_, sh2 := win["shared-header-root"]
+	if sh1 || sh2 {
+		tcb = world.Issue(world.TcbSignTemplate(get("shared-signer")), rootQ, k.tcb)
+		rootT = rootCopy("shared-header-root")
+		qe, qeKey, rootE = tcb, k.tcb, rootT
+	}
 
 	w := &world.World{P: k.p, Att: k.att}
 	w.PKI = &world.PKI{Root: rootQ, Inter: inter, TcbSign: tcb, Leaf: leaf}
@@ -86,7 +98,7 @@ func c06Build(k *c06Keys, r *mrand.Rand, win map[string]world.Window) *world.Wor
 		w.Qe.NextUpdate = x.NotAfter
 	}
 	w.TcbBody = world.SignedBody("tcbInfo", w.Tcb.JSON(), k.tcb)
-	w.QeBody = world.SignedBody("enclaveIdentity", w.Qe.JSON(), k.qe)
+	w.QeBody = world.SignedBody("enclaveIdentity", w.Qe.JSON(), qeKey)
 	w.TcbHdr = map[string][]string{world.HdrTcbInfo: {world.IssuerChain(tcb, rootT)}}
 	w.QeHdr = map[string][]string{world.HdrQeID: {world.IssuerChain(qe, rootE)}}
 	w.CrlHdr = map[string][]string{world.HdrPckCrl: {world.IssuerChain(interC, rootC)}}
@@ -103,7 +115,7 @@ func c06Build(k *c06Keys, r *mrand.Rand, win map[string]world.Window) *world.Wor
 
 func c06(x *mon.Ctx) {
 	x.Level = "fault_enumeration"
-	x.Rule = "14 artefact roles, each with its own window (the root is issued five times with one key and name: in the quote, in each of the three issuer-chain headers, in the pool; the PCK-CRL header carries its own copy of the intermediate; TCB-Info and QE-Identity have different signers): (1) boundary grid — for each role's expiry {1 s before, at, 1 s after} at each governing time entry with everything else 10 years away, and for the five path-validated certificates the same around notBefore; (2) 'judged at its own time' — for every role and every time entry: only that entry past the role's expiry (must reject iff the entry governs the role) and every OTHER entry past it while the governing ones are before (must accept); (3) monotonicity — all five times at expiry + {1 s, 1 h, 1 d, 30 d, 365 d} must reject; (4) random assignments of windows and five pairwise distinct times judged by the reference (accept => every listed condition holds at its own time). Run at the lowest option level where the role matters and above. distinct = (class, role, time entry, offset, level)."
+	x.Rule = "14 artefact roles, each with its own window, plus the two roles of the usual PCS situation in which TCB Info and QE Identity arrive with ONE byte-identical issuer chain (shared signer, shared header root: governed by both the TCB-Info and the QE-Identity time) (the root is issued five times with one key and name: in the quote, in each of the three issuer-chain headers, in the pool; the PCK-CRL header carries its own copy of the intermediate; TCB-Info and QE-Identity have different signers): (1) boundary grid — for each role's expiry {1 s before, at, 1 s after} at each governing time entry with everything else 10 years away, and for the five path-validated certificates the same around notBefore; (2) 'judged at its own time' — for every role and every time entry: only that entry past the role's expiry (must reject iff the entry governs the role) and every OTHER entry past it while the governing ones are before (must accept); (3) monotonicity — all five times at expiry + {1 s, 1 h, 1 d, 30 d, 365 d} must reject; (4) random assignments of windows and five pairwise distinct times judged by the reference (accept => every listed condition holds at its own time). Run at the lowest option level where the role matters and above. distinct = (class, role, time entry, offset, level)."
 	x.Assume = []string{"zero time.Time entries are excluded (the statement speaks of caller-supplied times)", "crypto/x509 enforces validity periods on the paths it validates"}
 	enableShadow(x)
 	r := x.Rand("keys")
